@@ -12,7 +12,8 @@ from harness import nswire
 from harness.common import corpus_cases
 
 PID = 'C07'
-MODULES = ['NoteSeqVerif.Props.C07']
+FLT = 'NoteSeqVerif.Props.C07_float'     # float bar length: exactness for power-of-two denominators (uses Proofs/Rounding*)
+MODULES = ['NoteSeqVerif.Proofs.C07Float', FLT, 'NoteSeqVerif.Props.C07']
 EXE = 'drv_c07'
 THEOREMS = [
     # PianorollSequence
@@ -31,6 +32,9 @@ THEOREMS = [
     'NSV.C07.kept_chain', 'NSV.C07.kept_stop', 'NSV.C07.kept_top', 'NSV.C07.dup_iff',
     # bar length
     'NSV.C07.steps_per_bar_nonInteger_iff', 'NSV.C07.extractors_nonInteger_iff', 'NSV.C07.bar_start',
+    (FLT, 'NSV.C07.spbExact_float'), (FLT, 'NSV.C07.steps_per_bar_float_eq_exact'),
+    (FLT, 'NSV.C07.steps_per_bar_nonInteger_iff_float'), (FLT, 'NSV.C07.steps_per_bar_nonInteger_iff_rne53'),
+    (FLT, 'NSV.C07.steps_per_bar_float_sound'),
 ]
 
 
